@@ -58,6 +58,19 @@ def histories(rng, tier):
                     # the same under the rayon arm, several draws (the rounded cells reach the word's end only sometimes)
                     th = list(pre[:1]) + [("threads", rng.choice([2, 3]))] + list(pre[1:]) + [("dump",)] + [("sample", c)] * 4
                     hs.append((rng.randrange(1 << 30), th))
+    # outcomes whose amplitude is not zero but whose probability is (the squared modulus underflows): one qubit turned by
+    # 1e-170 next to sizeable outcomes, the faint outcomes between and below them; the largest counts and many small ones
+    for c in ((1 << 64) - 1, (1 << 63) + 7):
+        hs.append((rng.randrange(1 << 30), [("new", 1), ("apply", ("rx", 1e-170, 1)), ("dump",), ("sample", c)]))
+        hs.append((rng.randrange(1 << 30), [("with", 2, 2), ("apply", ("ry", -3e-180, 1)), ("dump",), ("sample", c), ("sample", c - 3)]))
+    for rep in range(4 if tier == "quick" else 60):
+        acts = [("with", 4, 8), ("apply", ("h", 4)), ("apply", ("ry", rng.choice([0.9, 1.3, 2.0]), 2)),
+                ("apply", (rng.choice(["rx", "ry"]), rng.choice([1e-170, 3e-200]), 1)), ("dump",)]
+        if rep % 4 == 3:
+            acts.insert(1, ("threads", rng.choice(regcheck.thread_counts())))
+        for _ in range(40):
+            acts.append(("sample", rng.choice([3, 5, 7, 7, 10, 13, 101])))
+        hs.append((rng.randrange(1 << 30), acts))
     # registers with a past (grown, shrunk, regrown, multiplied, measured before): many small-count histograms each,
     # so that both correction branches (deficit and surplus) are taken
     def observe(r, n):
@@ -86,7 +99,7 @@ def oracle(acts, recs):
             if sum(cells) != counts[ci]:
                 fails.append("cells sum to %d, %d shots requested" % (sum(cells), counts[ci]))
             for i, c in enumerate(cells[:1 << n]):
-                if c and v[i] == 0:
+                if c and v[i].real * v[i].real + v[i].imag * v[i].imag == 0:
                     fails.append("cell %d got %d shots but its probability is exactly zero" % (i, c)); break
             ci += 1
         elif r[0] in ("x", "died"):
